@@ -34,11 +34,15 @@ def tobytes(arr):
 def max(arr, axis=None):
     if axis is not None:
         axis = tuple(axis)
+        if len(axis) == 0:
+            # Nothing to maximize over. (torch.amax reduces over all dims for dim=().)
+            return arr
 
-    if isinstance(arr, np.ndarray):
-        return np.max(arr, axis=axis)
-    else:
+    if isinstance(arr, torch.Tensor):
         return torch.amax(arr, dim=axis)
+    else:
+        # np.ndarray or numpy scalar (factor with an empty scope)
+        return np.max(arr, axis=axis)
 
 
 def einsum(*args):
